@@ -226,13 +226,14 @@ type recorder struct {
 	mu      sync.Mutex
 	ev      []mEvent
 	nAssoc  int
-	flood   int64 // calls dropped after maxEvents
+	flood   int64 // calls dropped after max
+	max     int
 	live    map[string]int // client address -> associations added and not yet removed
 	inner   service.UDPMetrics
 	innerSS service.ShadowsocksConnMetrics
 }
 
-func newRecorder() *recorder { return &recorder{live: map[string]int{}} }
+func newRecorder() *recorder { return &recorder{live: map[string]int{}, max: maxEvents} }
 
 type connRec struct {
 	r      *recorder
@@ -242,12 +243,12 @@ type connRec struct {
 	inner  service.UDPConnMetrics
 }
 
-// maxEvents bounds the memory of the recorder: a proxy that reports without end (e.g. an association goroutine
+// maxEvents (per handler; a behaviour makes a few dozen calls) bounds the memory of the recorder and the trace: a proxy that reports without end (e.g. an association goroutine
 // spinning on a closed socket) is flagged as a flood instead of exhausting the machine.
-const maxEvents = 100000
+const maxEvents = 4000
 
 func (r *recorder) add(e mEvent) {
-	if len(r.ev) >= maxEvents {
+	if len(r.ev) >= r.max {
 		r.flood++
 		return
 	}
